@@ -6,47 +6,44 @@
    instrumented runs, not here. *)
 From Coq Require Import List Arith Bool NArith.
 From FFSM2 Require Import Model.TaskList Model.BitArray Model.BitStream Model.Plan Model.Ancestors Model.Machine
-  Proofs.BitArrayProofs Proofs.MachineFrame Proofs.MachinePlan Proofs.MachineLife Proofs.GuardProofs Proofs.CycleProofs Proofs.PlanStep
-  Proofs.SerialProofs Proofs.LogProofs Proofs.MachineTop Model.Multi Generated.InitFacts Proofs.ConstructProofs Proofs.LifeMonitor Proofs.ActivationRounds Proofs.IndexSafety Proofs.FeatureProofs.
+  Proofs.BitArrayProofs Proofs.TaskListProofs Proofs.TaskListRun Proofs.PlanProofs Proofs.MachineFrame Proofs.MachinePlan Proofs.MachineLife Proofs.GuardProofs Proofs.CycleProofs Proofs.PlanStep
+  Proofs.SerialProofs Proofs.LogProofs Proofs.MachineTop Model.Multi Generated.InitFacts Proofs.ConstructProofs Proofs.LifeMonitor Proofs.ActivationRounds Proofs.IndexSafety Proofs.FeatureProofs Model.Script Proofs.Contract Proofs.Histories Proofs.StatusBits.
 Import ListNotations.
 
 Theorem C18_tasklist_emplace :
   forall (P : Type) (cap : nat) (t : tl P) (vac : list nat) (occ : list (nat * slot P)) 
            (o d : nat) (p : option P),
-         TaskListProofs.FL P cap t vac occ -> emplace_c P cap t o d p = Some (emplace P cap t o d p).
+         FL P cap t vac occ -> emplace_c P cap t o d p = Some (emplace P cap t o d p).
 Proof. exact (emplace_c_safe). Qed.
 Print Assumptions C18_tasklist_emplace.
 
 Theorem C18_tasklist_remove :
   forall (P : Type) (cap : nat) (t : tl P) (vac : list nat) (occ : list (nat * slot P)) (i : nat),
-         TaskListProofs.FL P cap t vac occ ->
-         In i (map fst occ) -> remove_c P cap t i = Some (remove P cap t i).
+         FL P cap t vac occ -> In i (map fst occ) -> remove_c P cap t i = Some (remove P cap t i).
 Proof. exact (remove_c_safe). Qed.
 Print Assumptions C18_tasklist_remove.
 
 Theorem C18_plan_append :
   forall (P : Type) (cap : nat) (d : plan_data P) (order : list nat) (o dst : nat),
-         PlanProofs.PlanInv P cap d order -> plan_append_c P cap d o dst = Some (plan_append P cap d o dst).
+         PlanInv P cap d order -> plan_append_c P cap d o dst = Some (plan_append P cap d o dst).
 Proof. exact (plan_append_c_safe). Qed.
 Print Assumptions C18_plan_append.
 
 Theorem C18_plan_append_with :
   forall (P : Type) (cap : nat) (d : plan_data P) (order : list nat) (o dst : nat) (p : P),
-         PlanProofs.PlanInv P cap d order ->
-         plan_append_with_c P cap d o dst p = Some (plan_append_with P cap d o dst p).
+         PlanInv P cap d order -> plan_append_with_c P cap d o dst p = Some (plan_append_with P cap d o dst p).
 Proof. exact (plan_append_with_c_safe). Qed.
 Print Assumptions C18_plan_append_with.
 
 Theorem C18_plan_remove :
   forall (P : Type) (cap : nat) (d : plan_data P) (order : list nat) (idx : nat),
-         PlanProofs.PlanInv P cap d order ->
-         In idx order -> plan_remove_c P cap d idx = Some (plan_remove P cap d idx).
+         PlanInv P cap d order -> In idx order -> plan_remove_c P cap d idx = Some (plan_remove P cap d idx).
 Proof. exact (plan_remove_c_safe). Qed.
 Print Assumptions C18_plan_remove.
 
 Theorem C18_plan_clear :
   forall (P : Type) (cap n : nat) (d : plan_data P) (order : list nat),
-         PlanProofs.PlanInv P cap d order ->
+         PlanInv P cap d order ->
          (1 <= N.of_nat n)%N ->
          wf (N.of_nat n) (pd_succ d) ->
          wf (N.of_nat n) (pd_fail d) -> plan_clear_c P cap n d = Some (plan_clear P cap n d).
@@ -55,20 +52,20 @@ Print Assumptions C18_plan_clear.
 
 Theorem C18_plan_iterate :
   forall (P : Type) (cap : nat) (d : plan_data P) (order : list nat),
-         PlanProofs.PlanInv P cap d order -> plan_tasks_c P cap d = Some (plan_tasks P cap d).
+         PlanInv P cap d order -> plan_tasks_c P cap d = Some (plan_tasks P cap d).
 Proof. exact (plan_tasks_c_safe). Qed.
 Print Assumptions C18_plan_iterate.
 
 Theorem C18_plan_remove_while_iterating :
   forall (P : Type) (cap : nat) (d : plan_data P) (order : list nat) (k : nat),
-         PlanProofs.PlanInv P cap d order -> plan_remove_at_c P cap d k = Some (plan_remove_at P cap d k).
+         PlanInv P cap d order -> plan_remove_at_c P cap d k = Some (plan_remove_at P cap d k).
 Proof. exact (plan_remove_at_c_safe). Qed.
 Print Assumptions C18_plan_remove_while_iterating.
 
 (* first()/last() are in range on a non-empty plan (on an empty one they would read slot 255: an asserted precondition) *)
 Theorem C18_plan_first_last :
   forall (P : Type) (cap : nat) (d : plan_data P) (order : list nat),
-         PlanProofs.PlanInv P cap d order ->
+         PlanInv P cap d order ->
          order <> [] -> plan_first_c P d = Some (plan_first P d) /\ plan_last_c P d = Some (plan_last P d).
 Proof. exact (plan_first_last_c_safe). Qed.
 Print Assumptions C18_plan_first_last.
@@ -173,4 +170,36 @@ Theorem C18_erasure_example_plan_remove :
          plan_remove_c P cap d idx = Some r -> r = plan_remove P cap d idx.
 Proof. exact (plan_remove_c_erase). Qed.
 Print Assumptions C18_erasure_example_plan_remove.
+
+(* over whole histories: in every state any in-contract history reaches, tasksSuccesses and tasksFailures hold exactly
+   ceil(n/8) bytes (PIw, closed under every operation of the machine: PIw_ok) *)
+Theorem C18_report_bits_well_formed_in_every_reachable_state :
+  forall (P : Type) (cfg : config) (orc : oracle P),
+         wf_cfg cfg ->
+         wf_oracle P cfg orc ->
+         forall (lg : bool) (ops : list (api_op P)),
+         ops_ok P cfg orc (construct P cfg orc lg) ops ->
+         let d := plan P (co P (run P cfg orc lg ops)) in
+         PIc P cfg d /\ wf (N.of_nat (c_n cfg)) (pd_succ d) /\ wf (N.of_nat (c_n cfg)) (pd_fail d).
+Proof. exact (reachable_status_bits). Qed.
+Print Assumptions C18_report_bits_well_formed_in_every_reachable_state.
+
+(* ... so every succeed/fail/clear/plan-step access with a state id below n is inside both arrays *)
+Theorem C18_report_bit_indices_in_range :
+  forall (P : Type) (cfg : config) (orc : oracle P),
+         wf_cfg cfg ->
+         wf_oracle P cfg orc ->
+         forall (lg : bool) (ops : list (api_op P)) (sid : nat),
+         ops_ok P cfg orc (construct P cfg orc lg) ops ->
+         sid < c_n cfg ->
+         let d := plan P (co P (run P cfg orc lg ops)) in
+         N.to_nat (N.of_nat sid / 8) < length (pd_succ d) /\ N.to_nat (N.of_nat sid / 8) < length (pd_fail d).
+Proof. exact (reachable_status_bits_in_range). Qed.
+Print Assumptions C18_report_bit_indices_in_range.
+
+Theorem C18_invariant_with_report_bits_is_closed :
+  forall (P : Type) (cfg : config),
+         (1 <= N.of_nat (c_n cfg))%N -> 1 <= c_cap cfg <= 255 -> plan_inv_ok P cfg (PIw P cfg).
+Proof. exact (PIw_ok). Qed.
+Print Assumptions C18_invariant_with_report_bits_is_closed.
 
